@@ -2,6 +2,7 @@ package main
 
 import (
 	"encoding/json"
+	"fmt"
 	"os"
 	"path/filepath"
 	"strconv"
@@ -172,7 +173,48 @@ func init() {
 			_ = os.MkdirAll(tmp, 0o755)
 			cases, results := c.replay("robust", r.cases, replayOpts{timeout: 120e9, opts: map[string]string{"tmp": tmp}, chunk: 4})
 			c.judge("robust", cases, results, func(cs, res map[string]J) string { in, _ := res["input"].(string); return in })
+			lexerStage(c)
 			c.exhaustive = true
 		},
+	}
+}
+
+// lexerStage: every text up to a length over four character families is cut into tokens by the real lexer (a dead or stuck
+// worker is a crash / hang: C05) and the tokens are compared with Lexer.tla, the ISO token syntax. A difference in the tokens
+// is no violation of a listed property (C05 speaks of crashes, hangs and the shape of errors): it is reported as an observation.
+func lexerStage(c *checkCtx) {
+	type fam struct {
+		name string
+		n    int
+	}
+	fams := []fam{{"names", 4}, {"numbers", 4}, {"quotes", 4}, {"comments", 5}}
+	if c.tier == "thorough" {
+		fams = []fam{{"names", 6}, {"numbers", 6}, {"quotes", 6}, {"comments", 7}}
+	}
+	tmpl, err := os.ReadFile(root + "/spec/GenLexer_T.cfg")
+	if err != nil {
+		infra("%v", err)
+	}
+	nobs, obs := 0, []string{}
+	for _, f := range fams {
+		r := c.mcHolds("GenLexer", strings.NewReplacer("@FAMILY@", f.name, "@NMAX@", strconv.Itoa(f.n)).Replace(string(tmpl)), tlcOpts{})
+		cases, results := c.replay("lexer", r.cases, replayOpts{chunk: 512})
+		c.judge("lexer", cases, results, func(cs, rs map[string]J) string {
+			if o, ok := rs["observation"].(string); ok {
+				nobs++
+				if len(obs) < 12 {
+					obs = append(obs, o)
+				}
+			}
+			if nt, _ := rs["nontrivial"].(bool); nt {
+				in, _ := rs["input"].(string)
+				return in
+			}
+			return ""
+		})
+	}
+	c.setExtra("token_sequences_differing_from_Lexer_tla", map[string]J{"count": nobs, "examples": obs})
+	if nobs > 0 {
+		fmt.Printf("NOTE: %d texts are cut into other tokens than Lexer.tla (ISO 6.4) prescribes (not a violation of a listed property), e.g. %s\n", nobs, obs[0])
 	}
 }
